@@ -287,4 +287,25 @@ theorem wrapOk_preprocess (e : Expr) (h : wrapOk e = true) : wrapOk (preprocess 
   · simp [hw, wrapOk, stepInvariant_pp, shouldWrap_stepInvariant e hw, wrapOk_pp e h]
   · simp [hw, wrapOk_pp e h]
 
+/-! ### subquery alignment -/
+
+theorem neg_lt_tmod (x step : Int) (h : 0 < step) : -step < x.tmod step := by
+  rcases Int.le_total 0 x with hx | hx
+  · have := Int.tmod_nonneg step hx; omega
+  · have h1 : (-x).tmod step = -(x.tmod step) := Int.neg_tmod x step
+    have h2 := Int.tmod_lt_of_pos (-x) h
+    omega
+
+theorem firstMultipleAfter_spec (x step : Int) (h : 0 < step) :
+    x < firstMultipleAfter x step ∧ firstMultipleAfter x step ≤ x + step ∧ step ∣ firstMultipleAfter x step := by
+  unfold firstMultipleAfter
+  have h1 := Int.mul_tdiv_add_tmod x step
+  have h2 := Int.tmod_lt_of_pos x h
+  have h3 := neg_lt_tmod x step h
+  simp only
+  split
+  · refine ⟨by omega, by omega, ?_⟩
+    exact Int.dvd_add (Int.dvd_mul_right _ _) (Int.dvd_refl _)
+  · refine ⟨by omega, by omega, Int.dvd_mul_right _ _⟩
+
 end Prom.RangeEval
